@@ -201,6 +201,16 @@ func Scratch() string {
 	return d
 }
 
+// OutDir is where evidence and replay files are written: VERIF_OUT if set (scratch
+// runs against a modified copy of the repository must not overwrite the evidence of
+// the registered checks), else VerifDir.
+var OutDir = func() string {
+	if d := os.Getenv("VERIF_OUT"); d != "" {
+		return d
+	}
+	return VerifDir
+}()
+
 // ScratchDir is the scratch directory of this process (worker or replay).
 var ScratchDir string
 
@@ -533,8 +543,8 @@ func parent(id, tier string) int {
 
 	// classify violations
 	kn := loadKnown()
-	os.MkdirAll(filepath.Join(VerifDir, "replays"), 0755)
-	old, _ := filepath.Glob(filepath.Join(VerifDir, "replays", id+"-*.json"))
+	os.MkdirAll(filepath.Join(OutDir, "replays"), 0755)
+	old, _ := filepath.Glob(filepath.Join(OutDir, "replays", id+"-*.json"))
 	for _, f := range old {
 		os.Remove(f)
 	}
@@ -557,7 +567,7 @@ func parent(id, tier string) int {
 		if nviol > 20 {
 			continue
 		}
-		path := filepath.Join(VerifDir, "replays", fmt.Sprintf("%s-%d.json", id, nviol))
+		path := filepath.Join(OutDir, "replays", fmt.Sprintf("%s-%d.json", id, nviol))
 		rb, _ := json.MarshalIndent(map[string]interface{}{"property": id, "tier": tier, "flavour": v.Flavour, "sig": v.Sig, "msg": v.Msg, "case": v.Case}, "", " ")
 		os.WriteFile(path, rb, 0644)
 		lines = append(lines, fmt.Sprintf("--- %s sig=%s\n%s", id, v.Sig, v.Msg))
@@ -623,8 +633,8 @@ func parent(id, tier string) int {
 		"violations":  nviol,
 	}
 	eb, _ := json.MarshalIndent(ev, "", " ")
-	os.MkdirAll(filepath.Join(VerifDir, "evidence"), 0755)
-	if err := os.WriteFile(filepath.Join(VerifDir, "evidence", id+".json"), eb, 0644); err != nil {
+	os.MkdirAll(filepath.Join(OutDir, "evidence"), 0755)
+	if err := os.WriteFile(filepath.Join(OutDir, "evidence", id+".json"), eb, 0644); err != nil {
 		fmt.Println("harness: cannot write evidence:", err)
 	}
 	fmt.Printf("%s %s: cases=%d evaluations=%d distinct_nontrivial=%d states=%d transitions=%d outcomes=%d exhaustive=%v violations=%d known=%d wall=%.1fs\n",
